@@ -1,4 +1,6 @@
 import ChipFiring.Theory.EwdFull
+import ChipFiring.Theory.GoodOf
+import ChipFiring.Theory.Termination
 /-
   C08 — Debt concentration clears V∖{q}; the burn returns the maximal legal firing set.
 -/
@@ -64,5 +66,19 @@ example : ∃ G : Graph 3, Graph.new 3 false [(0, 1, 1), (1, 2, 1)] = .ok G ∧
     ∃ s, sendDebt G (debtOrder G (fun _ => []) 0) 1000 (fun v => [0, -1, 0].getD v.1 0) = some s ∧
       (List.finRange 3).map s.D = [-1, 0, 0] := by
   refine ⟨_, rfl, _, rfl, by decide⟩
+
+/-- Headline form: on a connected graph, for ANY sink q, debt concentration (driven by the BFS
+    order from q, whatever the adjacency orders) returns, stays in the class, keeps the degree and
+    leaves no debt off q -/
+theorem send_debt_total (G : Graph n) (hG : G.WF) (hc : G.Connected) (hint : Fin n → List (Fin n))
+    (q : Fin n) (D : Fin n → Int) :
+    ∃ F, ∀ fuel, F ≤ fuel → ∃ s, sendDebt G (debtOrder G hint q) fuel D = some s ∧
+      LinEq G D s.D ∧ deg s.D = deg D ∧ ∀ v, v ≠ q → 0 ≤ s.D v := by
+  have hqn : q ∉ debtOrder G hint q := by unfold debtOrder; simp
+  obtain ⟨F, hF⟩ := sendDebt_terminates G hG.symm hc q (debtOrder G hint q) hqn D
+  refine ⟨F, fun fuel hf => ?_⟩
+  obtain ⟨s, hs⟩ := hF fuel hf
+  obtain ⟨h1, h2, h3⟩ := send_debt_spec G hG.symm q _ (cover_of_connected G hG hc hint q) fuel D s hs
+  exact ⟨s, hs, h1, h2, h3⟩
 
 end CF.C08
